@@ -246,6 +246,39 @@ func Triggers(p *Package) []Trigger {
 			}
 		}
 	}
+	// object references outside the places the templates support
+	dropObj := func(t *IType) func() {
+		return func() {
+			t.Walk(func(x *IType) {
+				if x.K == TObj {
+					x.K, x.Scalar, x.Obj = TScalar, "int32", nil
+				}
+			})
+		}
+	}
+	for _, s := range p.Structs {
+		for _, f := range s.Fields {
+			if f.T.MentionsObj() {
+				add("objref_in_struct", "field "+f.Name+" of struct "+s.Name+" is an object", dropObj(f.T))
+			}
+		}
+	}
+	for _, it := range p.Ifaces {
+		for _, a := range it.Actions {
+			for _, x := range a.Params {
+				where := fmt.Sprintf("%s %s.%s parameter %s", a.Kind, it.Name, a.Name, x.Name)
+				switch {
+				case a.Kind == "prop" && x.T.MentionsObj():
+					add("objref_property", where+" is an object", dropObj(x.T))
+				case a.Kind == "sig" && len(a.Params) != 1 && x.T.MentionsObj():
+					add("objref_in_struct", where+" is an object in a multi-parameter signal", dropObj(x.T))
+				case a.Kind == "fn" && x.T.K == TScalar && x.T.Scalar == "obj":
+					t := x.T
+					add("obj_plain_param", where+" is a plain obj", func() { t.Scalar = "int32" })
+				}
+			}
+		}
+	}
 	// names that become equal after title-casing
 	titles := map[string]string{}
 	for si, s := range p.Structs {
